@@ -44,12 +44,13 @@ NOTES = {
 def main():
     rows = []
     metas = sorted(glob.glob(os.path.join(ROOT, 'seeded', '*', 'meta.json')))
-    n_c = n_r = n_s = 0
+    n_c = n_r = n_s = n_t = 0
     for p in metas:
         m = json.load(open(p))
         name = m['id']
         if name.startswith('R'): n_r += 1
-        elif name[0] in 'ST': n_s += 1
+        elif name[0] == 'S': n_s += 1
+        elif name[0] == 'T': n_t += 1
         else: n_c += 1
         if m.get('rejected'):
             rows.append('| %s | %s | %s | - | rejected: %s |' % (name, cell(m.get('summary')), cell(m.get('needs')), cell(m['rejected'], 120)))
@@ -70,8 +71,7 @@ array/object built-ins, maths/input built-ins, main.go + utils.go), given all tw
 (refactorings, optimisations, "fixes") in their area that break some property.  Round 4 (%d changes, `Sxx_nk`): ten agents, one per
 theme (number <-> text conversions, Unicode, error signalling, scopes and closures, control flow, containers, command line and input,
 parser, lexer, performance-motivated caches and fast paths), given the twenty property texts and the summaries of all 110 earlier
-changes, asked for changes of a different kind that show only for rare inputs.  Round 5 (`Txx_nk`, 20 changes, counted with
-round 4 below): ten agents on interactions (functions as values in containers, numeric boundaries, strings, statement corners, REPL vs
+changes, asked for changes of a different kind that show only for rare inputs.  Round 5 (`Txx_nk`, 20 changes): ten agents on interactions (functions as values in containers, numeric boundaries, strings, statement corners, REPL vs
 script, objects, error reporting, lexical corners, built-in edges, resource-shaped behaviour), told to avoid triggers that are
 astronomically unlikely.  Each change was confirmed by `tools/seedtest.py` in a scratch worktree
 (applies, builds, baseline suite unchanged, demonstration differs between clean and changed build) and then `./check <ID> --tier quick` was run with
